@@ -111,7 +111,9 @@ class _Rec:
         return d
 
     def digest(self):
-        return self._h.digest()
+        d = self._h.digest()
+        self._log.append([self._which, self._key.hex(), bytes(self._buf).hex(), d.hex().encode().hex()])
+        return d
 
 
 class _HmacShim:
@@ -121,6 +123,13 @@ class _HmacShim:
 
     def new(self, key, msg=None, digestmod=None):
         return _Rec(self.log, key, msg, digestmod)
+
+    def digest(self, key, msg, digest):
+        # one-shot form (not used by the present code; a rewrite that compares raw digests must not look like a crash)
+        d = _hmac.digest(key, msg, digest)
+        which = 1 if digest in (hashlib.sha1, "sha1") else 2 if digest in (hashlib.sha256, "sha256") else 9
+        self.log.append([which, bytes(key).hex(), bytes(msg).hex(), d.hex().encode().hex()])
+        return d
 
     compare_digest = staticmethod(_hmac.compare_digest)
 
